@@ -24,8 +24,17 @@ def plan(ctx, thorough):
     r = ctx.sub_rng("c01")
     cat = wg.catalogue()
     monly = wg.catalogue_marshal_only()
-    n_rt, n_rp = (24, 16) if thorough else (6, 4)
+    n_rt, n_rp = (48, 24) if thorough else (6, 4)
     cases = []
+    for line in wg.corpus_lines("C01"):
+        f = line.split(" ")
+        if f[0] == "RT":
+            ty, bo, prefix, toks = f[1], f[2], int(f[3]), f[4:]
+            t = wg.parse_ext(ty)
+        else:
+            ty, bo, prefix, toks = "-", f[1], int(f[2]), f[3:]
+            t = ("r", [])
+        cases.append({"stream": "corpus", "op": f[0], "api": "corpus", "ty": ty, "t": t, "bo": bo, "prefix": prefix, "toks": toks, "cls": None})
     for ty in cat + monly:
         t = wg.parse_ext(ty)
         for api, n in (("typed", n_rt), ("param", n_rp)):
@@ -43,6 +52,12 @@ def plan(ctx, thorough):
                     op = ("RP", "RPR", "RPX")[(j + r.randrange(3)) % 3]
                 cases.append({"stream": "catalogue", "op": op, "api": api + ("-write/dynamic-read" if (api == "typed" and ty in monly) else ""),
                               "ty": ty, "t": t, "bo": bo, "prefix": prefix, "toks": toks, "cls": None})
+        # the same values inside a params::Variant that is written AND read through the typed API (impl Marshal / Unmarshal for params::Variant)
+        for j in range(4 if thorough else 1):
+            toks, _ = wg.gen_value(r, t, bad=False)
+            vt = toks if t[0] == "v" else ["v", wg.erased(t)] + toks
+            cases.append({"stream": "catalogue", "op": ("RV", "RVR", "RVX")[r.randrange(3)], "api": "typed params::Variant", "ty": ty, "t": t,
+                          "bo": r.choice(["le", "be"]), "prefix": r.randrange(16), "toks": vt, "cls": None})
     rb = ctx.sub_rng("c01-big")
     for cls, ty, toks in wg.big_cases(rb, thorough):
         t = wg.parse_ext(ty)
@@ -122,7 +137,7 @@ def run(ctx):
             ctx.count("big:" + c["cls"])
             if lm is None:
                 ctx.count("big:model-skipped")
-        else:
+        elif c["api"] not in ("typed params::Variant", "corpus"):
             phases.setdefault((c["ty"], c["api"]), set()).add(prefix % 8)
         fi = fields(li)
         why = None
@@ -167,12 +182,12 @@ def run(ctx):
     nbig = len(big)
     ctx.rule = ("case = (API: typed get::<T> | dynamic get_param from an owned / borrowing / alternating Param tree, catalogue type, byte order, "
                 "prefix, value). Stream 1: %d types (%d catalogue types + %d marshal-only 5-tuple types, written typed and read dynamically) x "
-                "{typed: %d cases, param: %d cases}; the prefix is drawn uniformly from 0..15 independently of the API (a random permutation of "
+                "{typed: %d cases, param: %d cases} plus one value (thorough: 4) wrapped in a params::Variant that is written and read through the typed API; the prefix is drawn uniformly from 0..15 independently of the API (a random permutation of "
                 "the 8 phases taken in turn, plus 0 or 8), so every (type, API) pair saw at least %d distinct phases mod 8 in this run; values "
                 "boundary-biased and encodable. Stream 2 (big, %d cases): length fields >= 64 KiB, strings of 255..70000 bytes, 64..100 "
                 "containers in one array/dict, nesting at the limits, typed in both byte orders plus one Param flavour. "
                 "non-trivial = prefix > 0 or the type has a container or text leaf; distinct = distinct case lines"
-                % (ntypes, len(wg.catalogue()), len(wg.catalogue_marshal_only()), 24 if thorough else 6, 16 if thorough else 4, minph, nbig))
+                % (ntypes, len(wg.catalogue()), len(wg.catalogue_marshal_only()), 48 if thorough else 6, 24 if thorough else 4, minph, nbig))
     want = 8 if thorough else 2
     if minph < want:
         ctx.tie_broken("generator: a (type, API) pair saw fewer than %d prefix phases" % want, str(minph))
